@@ -26,7 +26,9 @@ impl EventSource for RawIoBlock<'_> {
     fn subscribe(&mut self, co: CoroutineImpl) {
         #[cfg(feature = "io_cancel")]
         let handle = co_get_handle(&co);
-        let io_data = self.io_data;
+        // keep the event data alive: once the coroutine is published it may be resumed
+        // by another worker at once, finish and close the socket
+        let io_data = (*self.io_data).clone();
         io_data.co.store(co);
         // there is event, re-run the coroutine
         if io_data.io_flag.load(Ordering::Acquire) != 0 {
@@ -38,7 +40,7 @@ impl EventSource for RawIoBlock<'_> {
         {
             let cancel = handle.get_cancel();
             // register the cancel io data
-            cancel.set_io((*io_data).clone());
+            cancel.set_io(io_data.clone());
             // re-check the cancel status
             if cancel.is_canceled() {
                 unsafe { cancel.cancel() };
